@@ -73,11 +73,15 @@ pub fn generate05(seed: u64, run: u64, _tier: Tier) -> Plan05 {
                 _ => MStep::Reopen { variant: *rng.pick(&FILE_VARIANTS) },
             }
         } else {
-            match rng.below(5) {
+            // simulated files: file-backed kinds only (the in-memory storage's backup writes through std::fs::write)
+            match rng.below(9) {
                 0 => MStep::Optimize,
                 1 => MStep::Shrink,
                 2 => MStep::Reopen { variant },
-                _ => MStep::Reopen { variant: *rng.pick(&FILE_VARIANTS) },
+                3 | 4 => MStep::Reopen { variant: *rng.pick(&FILE_VARIANTS) },
+                5 => MStep::Backup { open_as: *rng.pick(&FILE_VARIANTS), switch: rng.chance(1, 2) },
+                6 => MStep::Copy { switch: rng.chance(1, 2) },
+                _ => MStep::Rename,
             }
         }
     };
@@ -211,9 +215,6 @@ pub fn exec05(plan: &Plan05, trials: &mut Trials) -> RunReport {
                     after_handles.push(("shrunk".into(), ext_of(&db)));
                 }
                 MStep::Backup { open_as, switch } => {
-                    if !plan.real_files {
-                        continue;
-                    }
                     gen_no += 1;
                     let target = format!("{dir}/db{gen_no}");
                     what = format!("step {n}: backup of {cur:?} opened as {open_as:?}");
@@ -234,9 +235,6 @@ pub fn exec05(plan: &Plan05, trials: &mut Trials) -> RunReport {
                     }
                 }
                 MStep::Copy { switch } => {
-                    if !plan.real_files {
-                        continue;
-                    }
                     gen_no += 1;
                     let target = format!("{dir}/db{gen_no}");
                     what = format!("step {n}: copy of {cur:?}");
@@ -259,9 +257,6 @@ pub fn exec05(plan: &Plan05, trials: &mut Trials) -> RunReport {
                     }
                 }
                 MStep::Rename => {
-                    if !plan.real_files {
-                        continue;
-                    }
                     gen_no += 1;
                     let target = format!("{dir}/db{gen_no}");
                     what = format!("step {n}: rename of {cur:?}");
